@@ -2,7 +2,7 @@
 Engine 1: structure-aware field mutation of valid images built by the independent writer (uncompressed metadata);
 Engine 1b: byte/superblock mutation of tool-written compressed images; Engine 3: CLI replay under ASan/UBSan with a watchdog."""
 import os, struct, traceback, hashlib, random
-from . import core, build, gentree, sqfsimg
+from . import core, build, gentree, sqfsimg, views
 from .gentree import Node
 
 PROP = "C05"
@@ -157,6 +157,14 @@ def special_images(r):
         for L in range(lo, hi):
             t[b"x%05d" % L] = Node("file", 0o644, data=[], xattrs={b"user.ka": b"v" * L, b"user.kb": b"w" * L, b"user.kc": b"x" * L, b"user.second": b"y" * L})
         out.append(("xattr-value-lengths-%d-%d" % (lo, hi), sqfsimg.build_image(t)[0]))
+    # valid images with very deep nesting: recursion over the directory tree must be bounded (error) or survive
+    out.append(("deep-chain-3000", sqfsimg.chain_image(3000)))
+    out.append(("deep-chain-100000", sqfsimg.chain_image(100000)))
+    # entry names with NUL bytes inside (the name size field says more than strlen())
+    t = {b"": Node("dir", 0o755), b"a": Node("file", 0o644, data=[("bytes", b"A")]), b"b": Node("dir", 0o755), b"b/c": Node("file", 0o644, data=[("bytes", b"C")]),
+         b"zzz": Node("file", 0o644, data=[("bytes", b"Z")])}
+    for L in (2, 9, 300):
+        out.append(("nul-in-names-%d" % L, sqfsimg.build_image(t, raw_names={b"a": b"a" + bytes(L), b"b": b"b\0x", b"b/c": b"c" + bytes(L)})[0]))
     # truncation at structure boundaries and random offsets
     t0 = base_trees()[0][1]
     img, fmap, info = sqfsimg.build_image(t0)
@@ -294,9 +302,11 @@ def run_batch(arg):
                 oc.inc("images:" + engine)
                 full = engine == "special"
                 for opname, argv in reader_ops(B, ip, valid, work, paths or [b""], r, full):
+                    if name == "deep-chain-100000" and opname.startswith("sqfs2tar"):
+                        continue     # takes minutes (the path of every entry is re-assembled): bounded, but not worth the time here
                     up = os.path.join(work, "unp")
                     if opname.startswith("unpack"):
-                        core.shutil.rmtree(up, ignore_errors=True)
+                        views.force_rmtree(up)
                         os.makedirs(up, exist_ok=True)
                     res = core.run_tool(argv, timeout=WATCHDOG, stdout_file=os.devnull if opname.startswith("sqfs2tar") else None)
                     oc.inc("runs")
@@ -318,7 +328,7 @@ def run_batch(arg):
                         oc.inc("accepted")
                     else:
                         oc.inc("rejected")
-                core.shutil.rmtree(os.path.join(work, "unp"), ignore_errors=True)
+                views.force_rmtree(os.path.join(work, "unp"))
             oc.sample = {"engine": engine, "batch": batch_id, "first": items[0][0] if items else None, "images": len(items)}
     except Exception:
         oc.inconclusive.append("harness exception: %s" % traceback.format_exc()[-800:])
@@ -461,6 +471,9 @@ def main(tier):
     del stream_items
     sp = [(n, d, [b"", b"a", b"b", b"a/a", b"f", b"d"]) for n, d in special_images(r)]
     batches += [(i, "special", sp[k:k + 4], tier) for i, k in enumerate(range(0, len(sp), 4))]
+    spw = [(n_, d_) for n_, d_, _ in sp if n_ != "deep-chain-100000"]
+    for oc in core.pmap(run_walk_batch, [(20000 + i, spw[k:k + 40], tier) for i, k in enumerate(range(0, len(spw), 40))]):
+        rep.add(oc)
     for oc in core.pmap(run_batch, batches):
         rep.add(oc)
     rep.evaluations = rep.counters.get("runs", 0) + rep.counters.get("walk_runs", 0)
